@@ -17,6 +17,7 @@ func profC04() *RevProfile {
 	p.CancelPct = 4
 	p.SoakPct = 8 // state an earlier validation may have left behind
 	p.HostileURL = 5
+	p.RepsPct = 8 // overlapping validations of one chain that supply different signing times
 	return p
 }
 
